@@ -108,6 +108,14 @@ SPECS = {
             "actor ids are compared through their rank in byte order",
         ],
     },
+    "C12": {
+        "corr": ["Proto"],
+        "engines": [
+            {"name": "hist", "tag": "c12", "extra": "prop=C12", "n": {"quick": 600, "thorough": 8000}},
+        ],
+        "explanation": "Theorems on the protocol model: on a presenceless document no request makes the server store or return presence. Histories with presence sets, initial presences, detach/re-attach with fresh documents, deactivation, snapshot pulls, presenceless documents (with later attachers that do and do not pass the flag) run on the real server and are replayed through the model; oracles: AllPresences identical on all attached replicas and equal to the set of attached actors; presenceless documents have no presence in the log, in responses, or on any client.",
+        "assumptions": ["client-side presence application (document.applyChanges) is exercised by the oracle only"],
+    },
     "C19": {
         "level": "exploration", "exhaustive": True,
         "corr": ["ERHT"],
